@@ -60,6 +60,10 @@ struct World {
     created: u64,
     /// receivers of the uplinks a reload removed: nothing may ever arrive there again
     removed_rx: Vec<(u64, StdUdp)>,
+    /// op `hkarm`: the REAL weak-link filter and per-link CC controller the event loop owns next to the
+    /// connections (`run_sender_with_config`: `weak_link_filter`, `link_cc_controller`); fresh per `init`
+    weak_link_filter: srtla_core::selection::classifier::WeakLinkFilter,
+    link_cc_controller: srtla_core::selection::link_cc::LinkCcController,
 }
 
 /// The address token of an uplink, read off its LABEL - the production format `<host>:<port> via <ip>` with
@@ -777,6 +781,8 @@ impl SysComp {
             reload_port,
             created: n as u64,
             removed_rx: Vec::new(),
+            weak_link_filter: srtla_core::selection::classifier::WeakLinkFilter::new(),
+            link_cc_controller: srtla_core::selection::link_cc::LinkCcController::new(),
         });
         self.g = Ghost::default();
     }
@@ -882,12 +888,27 @@ impl Component for SysComp {
          datagrams, an uplink removed with packets in flight, reloads in the middle of the REG1 / REG2 handshake, \
          uplinks added and brought up, removed addresses re-added, same / permuted / duplicated lists, all but one \
          removed, refused creations retried later, datagrams addressed to removed conn ids. \
+         Every case with index 1 mod 3 runs the WHOLE housekeeping arm at its ticks (op hkarm: hk, then the real \
+         WeakLinkFilter::classify, LinkCcController::tick_all and the stamping loop, mirrored statement by statement); \
+         every case with index 5 mod 16 is the lopsided-share scenario (hkarm at every tick, one uplink starved by a \
+         tiny window, late / missing keepalive echoes, phases under the 100 kbit/s floor, a NAK-heavy loss phase, an \
+         optional reload) in which weak / probation / back-off / loss-degraded verdicts are reached and stamped. \
          Thorough tier: cases up to 450 steps. Non-trivial: registration completed and at least one datagram was put \
          on the wire."
     }
 
     fn gen_case(&mut self, rng: &mut Rng, tier: Tier, idx: usize) -> Vec<String> {
-        gen_case(rng, tier, idx)
+        let mut ops = gen_case(rng, tier, idx);
+        // every 3rd case runs the WHOLE housekeeping arm at its ticks (op `hkarm`: `hk` + classify + tick_all +
+        // the stamping loop on the real filter / controller) instead of the `handle_housekeeping` part alone
+        if idx % 3 == 1 {
+            for l in ops.iter_mut() {
+                if let Some(rest) = l.strip_prefix("hk ") {
+                    *l = format!("hkarm {rest}");
+                }
+            }
+        }
+        ops
     }
 
     fn start_case(&mut self) {
@@ -1045,6 +1066,8 @@ impl SysComp {
             },
             ["flush", now] => now.parse().ok().map(Op::Flush),
             ["hk", now] => now.parse().ok().map(Op::Hk),
+            // the housekeeping arm up to and including the stamping loop: `hk`, then the arm's tail (`arm_tail`)
+            ["hkarm", now] => now.parse().ok().map(Op::Hk),
             ["cfg", rest @ ..] => parse_cfg(rest).map(Op::Cfg),
             ["crit", d] => d.parse().ok().map(Op::Crit),
             ["failnext", cid] => cid.parse().ok().map(Op::Fail),
@@ -1268,12 +1291,117 @@ impl SysComp {
                 mon.fail("C19", "sys-datagram-for-removed-uplink-not-ignored", format!("`{}` names a conn id no current uplink has (ids {pre_ids:?}), yet it put {} datagram(s) on uplink sockets, {} on the client socket, state changed: {}", &op[..op.len().min(60)], wire.len(), client.len(), *pre_show != post_show));
             }
         }
-        self.monitors(&parsed_kind(&parsed), now, &pre, &pre_ids, &pre_fail, &pre_bind_fail, pre_has_connected, pre_client_known, &cfg, &wire, &client, mon, &op);
+        // op `hkarm`: the generic monitors judge the `handle_housekeeping` part exactly as for `hk` (the stamped
+        // verdicts must not move THERE); the classifier / controller / stamping tail of the arm runs afterwards
+        let arm = toks[0] == "hkarm";
+        let mon_op = if arm { format!("hk {now}") } else { op.clone() };
+        self.monitors(&parsed_kind(&parsed), now, &pre, &pre_ids, &pre_fail, &pre_bind_fail, pre_has_connected, pre_client_known, &cfg, &wire, &client, mon, &mon_op);
+        let arm_out = if arm { self.arm_tail(now, mon) } else { String::new() };
 
         let w = self.w.as_ref().unwrap();
         let ws: Vec<String> = wire.iter().map(|(id, d)| format!("{id}:{}", to_hex(d))).collect();
         let cs: Vec<String> = client.iter().map(|d| to_hex(d)).collect();
-        format!("wire=[{}] client=[{}] err={} | {}", ws.join(","), cs.join(","), show_bool(hk_err), w.show())
+        format!("wire=[{}] client=[{}] err={} | {}{}", ws.join(","), cs.join(","), show_bool(hk_err), w.show(), arm_out)
+    }
+
+    /// The tail of the housekeeping arm of `run_sender_with_config` (src/sender/mod.rs, pinned as `event-loop:
+    /// housekeeping arm`) after `handle_housekeeping`, statement by statement on the real filter / controller /
+    /// connections under the virtual clock: `classify`, `tick_all(.., now_ms())`, the stamping loop.  Returns the
+    /// extra observation ` | arm[..]` (the classification result, the snapshot map sorted by conn id, the
+    /// `cc_backing_off` flags the dump does not print) and runs the arm-level monitors on the RAW state.
+    fn arm_tail(&mut self, now: u64, mon: &mut Mon) -> String {
+        use srtla_core::selection::link_cc::CcState;
+        let w = self.w.as_mut().unwrap();
+        verif_clock::set(Some(now));
+        // ---- mirrored statements
+        let classification = w.weak_link_filter.classify(&w.links);
+        let link_cc_snapshots = w.link_cc_controller.tick_all(&w.links, srtla_core::utils::now_ms());
+        for conn in w.links.iter_mut() {
+            conn.weak = classification
+                .per_link
+                .iter()
+                .find(|e| e.conn_id == conn.conn_id)
+                .map(|e| e.weak)
+                .unwrap_or(false);
+            let cc_snap = link_cc_snapshots.get(&conn.conn_id);
+            conn.cc_backing_off = cc_snap.map(|s| s.state == CcState::BackingOff).unwrap_or(false);
+            conn.cc_target_bps = cc_snap.map(|s| s.target_bps).unwrap_or(0);
+            conn.loss_degraded = cc_snap.map(|s| s.loss_degraded).unwrap_or(false);
+        }
+        verif_clock::set(None);
+        // ---- monitors, from the property texts, on the raw connection state after the loop
+        mon.count("hkarm");
+        let total: f64 = w.links.iter().filter(|c| c.connected).map(|c| c.bitrate.current_bitrate_bps.max(0.0)).sum();
+        let n_conn = w.links.iter().filter(|c| c.connected).count();
+        for c in &w.links {
+            if c.weak && !c.connected {
+                mon.fail("C17", "arm-weak-while-disconnected", format!("tick {now}: link {} is not connected, yet the arm stamped it weak", c.conn_id));
+            }
+            // strictly under the floor by more than any summation-order effect
+            if c.weak && (n_conn == 0 || total < 100_000.0 * (1.0 - 1e-9)) {
+                mon.fail("C17", "arm-weak-under-floor", format!("tick {now}: total bitrate of the connected links {total} bit/s is under the 100 kbit/s floor ({n_conn} connected), yet link {} is stamped weak", c.conn_id));
+            }
+            if c.cc_target_bps != 0 && !(100_000..=200_000_000).contains(&c.cc_target_bps) {
+                mon.fail("C16", "arm-target-out-of-bounds", format!("tick {now}: link {} stamped cc_target_bps {} outside {{0}} u [100000, 200000000]", c.conn_id, c.cc_target_bps));
+            }
+            if c.weak { mon.count("hkarm-weak-stamped"); }
+            if c.cc_backing_off { mon.count("hkarm-ccb-stamped"); }
+            if c.loss_degraded { mon.count("hkarm-ld-stamped"); }
+            if c.cc_target_bps != 0 { mon.count("hkarm-target-nonzero"); }
+            if c.cc_target_bps > 100_000 { mon.count("hkarm-target-above-floor"); }
+            if !c.connected { mon.count("hkarm-link-disconnected-at-tick"); }
+        }
+        if n_conn > 0 && total < 100_000.0 { mon.count("hkarm-under-floor"); }
+        if n_conn > 0 && total >= 100_000.0 { mon.count("hkarm-classified"); }
+        for e in &classification.per_link {
+            mon.count(&format!("hkarm-reason:{:?}", e.reason));
+        }
+        let ids: BTreeSet<u64> = w.links.iter().map(|c| c.conn_id).collect();
+        for id in link_cc_snapshots.keys() {
+            if !ids.contains(id) {
+                mon.fail("C16", "arm-entry-for-absent-link", format!("tick {now}: the controller reports an entry for conn id {id}, which no link has (links {ids:?})"));
+            }
+        }
+        for id in &ids {
+            if !link_cc_snapshots.contains_key(id) {
+                mon.fail("C16", "arm-entry-for-absent-link", format!("tick {now}: the controller has no entry for the present link {id} right after its tick"));
+            }
+        }
+        // ---- observation
+        let cls: Vec<String> = classification
+            .per_link
+            .iter()
+            .map(|e| format!("{}:{}:{:?}:{}:{}", e.conn_id, show_bool(e.weak), e.reason, e.share_permille, e.threshold_permille))
+            .collect();
+        let mut keys: Vec<u64> = link_cc_snapshots.keys().copied().collect();
+        keys.sort_unstable();
+        let cc: Vec<String> = keys
+            .iter()
+            .map(|id| {
+                let p = &link_cc_snapshots[id];
+                format!(
+                    "{id}:st={},cm={},tgt={},ewma={},var={},min={},lpm={},lewma={},deg={}",
+                    p.state.as_str(),
+                    p.climb_mode.as_str(),
+                    p.target_bps,
+                    fb(p.rtt_ewma_ms),
+                    fb(p.rtt_var_ms),
+                    fb(p.rtt_min_ms),
+                    p.loss_permille,
+                    fb(p.loss_ewma),
+                    show_bool(p.loss_degraded)
+                )
+            })
+            .collect();
+        let ccb: Vec<String> = w.links.iter().map(|c| show_bool(c.cc_backing_off).to_string()).collect();
+        format!(
+            " | arm[sel={} est={} cls=[{}] cc=[{}] ccb=[{}]]",
+            classification.selected_delay_ms,
+            classification.estimated_max_delay_ms,
+            cls.join(";"),
+            cc.join(";"),
+            ccb.join(",")
+        )
     }
 }
 
@@ -2569,6 +2697,10 @@ fn gen_case(rng: &mut Rng, tier: Tier, idx: usize) -> Vec<String> {
     }
     if idx % 43 == 29 {
         return gen_idle_session_timeout(rng);
+    }
+    if idx % 16 == 5 {
+        // the whole housekeeping arm under lopsided traffic shares (verdicts change: weak / probation / back-off)
+        return gen_lopsided(rng);
     }
     if idx % 8 == 6 {
         // uplink-set reloads (SIGHUP) in a running session; tested AFTER the special scenarios above, so it takes
@@ -4139,6 +4271,131 @@ fn gen_long_rtt_history(rng: &mut Rng) -> Vec<String> {
         }
         ops.push(format!("uplink {now} {} {}", link + 1, hexs(&b)));
         now += rng.below(30);
+    }
+    ops.push(format!("flush {}", now + 15));
+    ops
+}
+
+/// The whole housekeeping arm (`hkarm` at every tick) in a session whose traffic shares are LOPSIDED, so that the
+/// verdicts of the weak-link filter and the per-link CC controller actually change and are stamped: 2..3 uplinks
+/// come up; one of them is kept at a tiny window (`setlink w=1000` after every tick: it carries a trickle or
+/// nothing - LowShare / NoTraffic, probation after 15 share-weak ticks), optionally one uplink's keepalive echoes
+/// arrive late (HighRtt) or stop altogether (it times out: a link that is NOT connected at the tick), the total is
+/// under the 100 kbit/s floor in some phases (bypass) and well above it in others, and in a loss phase most
+/// packets of the busy uplink are NAKed (loss window -> BackingOff; loss EWMA over 0.55 for 4 s -> loss_degraded).
+/// A reload removes / adds an uplink in some cases (controller GC, a fresh entry).
+fn gen_lopsided(rng: &mut Rng) -> Vec<String> {
+    let n = rng.range(2, 3) as usize;
+    let seed = rng.below(1 << 30);
+    let mut now: u64 = 1_000_000 + rng.below(500_000);
+    let mut ops = vec![format!("init {n} {seed} {now}")];
+    ops.push(format!(
+        "cfg classic={} quality=1 stall={} minif=32 ceil=3000 cto=5000",
+        if rng.chance(1, 5) { 1 } else { 0 },
+        rng.below(2)
+    ));
+    let id = id_from_seed(seed, 0);
+    let mut group_id = id;
+    for b in group_id[128..].iter_mut() {
+        *b = b.wrapping_add(17);
+    }
+    let hexs = |b: &[u8]| to_hex(b);
+    ops.push(format!("uplink {now} 1 {}", hexs(&SRTLA_TYPE_REG_NGP.to_be_bytes())));
+    now += 20;
+    let mut reg2 = SRTLA_TYPE_REG2.to_be_bytes().to_vec();
+    reg2.extend_from_slice(&group_id);
+    ops.push(format!("uplink {now} 1 {}", hexs(&reg2)));
+    now += 300;
+    ops.push(format!("hkarm {now}"));
+    for i in 0..n {
+        now += 10;
+        ops.push(format!("uplink {now} {} {}", i + 1, hexs(&SRTLA_TYPE_REG3.to_be_bytes())));
+    }
+    let starved = rng.below(n as u64) as usize; // the uplink kept at a tiny window
+    let slow: Option<usize> = if rng.chance(1, 2) { Some(rng.below(n as u64) as usize) } else { None }; // late echoes
+    let silent: Option<usize> = if n == 3 && rng.chance(1, 2) { Some((starved + 1) % n) } else { None }; // echoes stop
+    let silent_from = rng.range(6, 14);
+    let ticks = rng.range(30, 46);
+    let loss_from = rng.range(8, 16);
+    let loss_len = rng.range(6, 12);
+    let quiet_from = loss_from + loss_len + rng.range(2, 5);
+    let quiet_len = rng.range(2, 5);
+    let reload_at = if rng.chance(1, 3) { Some(rng.range(10, 25)) } else { None };
+    let mut ids: Vec<u64> = (1..=n as u64).collect();
+    let mut seq: u32 = (rng.next_u64() as u32) & 0x7fff_0000;
+    let mut counter = 1u64;
+    let mut hk = now + 700;
+    // (time, op) of the current second, merged in time order before they are emitted (late echoes of the previous
+    // tick interleave with this second's traffic)
+    let mut pend: Vec<(u64, String)> = Vec::new();
+    for t in 0..ticks {
+        let quiet = t >= quiet_from && t < quiet_from + quiet_len;
+        let lossy = t >= loss_from && t < loss_from + loss_len;
+        // traffic of this second: 4 sub-rounds; above the floor needs > 9.5 datagrams of 1316 bytes per second
+        let per_round = if quiet { rng.below(2) } else { rng.range(3, 6) };
+        for r in 0..4u64 {
+            let t0 = now + 40 + r * 150;
+            let first = seq;
+            for k in 0..per_round {
+                pend.push((t0 + k, format!("client {} {}", t0 + k, hexs(&data_packet(seq, false, 1316, counter, rng)))));
+                counter += 1;
+                seq = (seq + 1) & 0x7fff_ffff;
+            }
+            pend.push((t0 + 15, format!("flush {}", t0 + 15)));
+            if per_round == 0 {
+                continue;
+            }
+            let busy = ids[rng.below(ids.len() as u64) as usize];
+            if lossy {
+                // the receiver reports most of the round lost (the carrier of each number is charged)
+                let mut nak = vec![0x80u8, 0x03, 0, 0];
+                for d in 0..per_round.min(4) as u32 {
+                    nak.extend_from_slice(&(first.wrapping_add(d) & 0x7fff_ffff).to_be_bytes());
+                }
+                pend.push((t0 + 60, format!("uplink {} {busy} {}", t0 + 60, hexs(&nak))));
+            }
+            // cumulative ACK past the round
+            let mut b = rng.bytes(44);
+            b[0] = 0x80;
+            b[1] = 0x02;
+            b[16..20].copy_from_slice(&seq.to_be_bytes());
+            pend.push((t0 + 90, format!("uplink {} {busy} {}", t0 + 90, hexs(&b))));
+        }
+        pend.sort_by_key(|e| e.0);
+        let (before, after): (Vec<_>, Vec<_>) = pend.drain(..).partition(|e| e.0 < hk);
+        ops.extend(before.into_iter().map(|e| e.1));
+        pend = after;
+        now = hk;
+        ops.push(format!("hkarm {hk}"));
+        for (j, cid) in ids.iter().enumerate() {
+            if silent == Some(j) && t >= silent_from {
+                continue;
+            }
+            let rtt = if slow == Some(j) { rng.range(350, 900) } else { rng.range(8, 39) };
+            pend.push((hk + rtt, format!("uplink {} {cid} {}", hk + rtt, hexs(&create_keepalive_packet(hk).to_vec()))));
+        }
+        if starved < ids.len() && !rng.chance(1, 8) {
+            ops.push(format!("setlink {starved} w={}", rng.pick(&[1000i32, 1000, 2000, 1000])));
+        }
+        if reload_at == Some(t) && ids.len() >= 2 {
+            // the tail of the arm after a SIGHUP: drop the last uplink (or keep all), add a new address
+            let drop_last = rng.chance(1, 2);
+            let mut list: Vec<u64> = (1..=n as u64).collect();
+            if drop_last {
+                list.pop();
+                ids.pop();
+            }
+            list.push(9);
+            ids.push(n as u64 + 1);
+            let l: Vec<String> = list.iter().map(|a| a.to_string()).collect();
+            ops.push(format!("reload {} {} -", hk + 1, l.join(",")));
+        }
+        hk += *rng.pick(&[1000u64, 1000, 1000, 1001, 1200]);
+    }
+    pend.sort_by_key(|e| e.0);
+    for e in pend {
+        now = now.max(e.0);
+        ops.push(e.1);
     }
     ops.push(format!("flush {}", now + 15));
     ops
